@@ -449,6 +449,9 @@ def census():
                 n_cc += 1
         if n_cc != len(re.findall(r"\bconst_cast\s*<", t)):
             raise AnchorError("gen_thr: %s: a const_cast outside any function body" % rel)
+        # C-style / functional casts that strip const from `this` are not censused: fail closed
+        if re.search(r"\(\s*[\w:<>]+\s*[*&]\s*\)\s*\(?\s*\*?\s*this\b", t):
+            raise AnchorError("gen_thr: %s: C-style cast applied to `this` (const stripped without const_cast?)" % rel)
         # (c) static members and namespace-scope variables
         for chain, kind, st in stmts:
             if not st or "mutable" in st:
